@@ -4,14 +4,14 @@ From Chum Require Import Corollaries.
 (* In the specification the context is an explicit environment: a provider replaces it for its
    sub-parser only, so a reader sees the nearest enclosing provider on the current path. *)
 Theorem C15_with_ctx_provides :
-  forall K toks spn n c x ctx p a, sem K toks spn (S n) (WithCtx c x) ctx p a = sem K toks spn n x c p a.
+  forall K toks spn n c x ctx p a, sem K toks spn (S n) (WithCtx c x) ctx p a = sem K toks spn n x (with_ctx ctx c) p a.
 Proof. exact sem_with_ctx. Qed.
 
 Theorem C15_ignore_with_ctx_passes_this_attempts_output :
   forall K toks spn n x y ctx p a va p1 e1 a1,
     sem K toks spn n x ctx p a = Some (Some (va, p1, e1), a1) ->
     sem K toks spn (S n) (IgnoreWithCtx x y) ctx p a =
-      match sem K toks spn n y va p1 a1 with
+      match sem K toks spn n y (with_ctx ctx va) p1 a1 with
       | Some (Some (vb, p2, e2), a2) => Some (Some (vb, p2, e1 ++ e2), a2)
       | Some (None, a2) => Some (None, a2)
       | None => None
@@ -21,7 +21,7 @@ Proof. exact sem_ignore_with_ctx. Qed.
 (* just(..).configure(seq) matches exactly as the statically configured just *)
 Theorem C15_configured_just_is_static_just :
   forall K toks spn n ts ctx p a,
-    sem K toks spn (S n) (JustCfg ts) ctx p a = sem K toks spn (S n) (Just (val_toks ctx)) ctx p a.
+    sem K toks spn (S n) (JustCfg ts) ctx p a = sem K toks spn (S n) (Just (val_toks (cval ctx))) ctx p a.
 Proof. exact sem_just_cfg. Qed.
 
 (* the machine threads the context exactly so, in every mode, through repetitions, choices and backtracking *)
